@@ -54,6 +54,37 @@ let () = register "log2" (fun args ->
   (string_of_n (Segments.log2_go x), "-"))
 
 
+(* ---- independent spec decoder: C14 ---- *)
+let spec_inflate b = match inflate b with Block.IOk (o, c) -> SpecDecoder.SIOk (o, c) | _ -> SpecDecoder.SIFail
+
+let show_spec_err = function
+  | SpecDecoder.SE_short -> "short" | SpecDecoder.SE_magic -> "magic" | SpecDecoder.SE_version -> "version"
+  | SpecDecoder.SE_header_copy -> "header-copy" | SpecDecoder.SE_crc -> "crc" | SpecDecoder.SE_hash -> "hash"
+  | SpecDecoder.SE_block_type p -> "block-type@" ^ string_of_n p | SpecDecoder.SE_block_len p -> "block-len@" ^ string_of_n p
+  | SpecDecoder.SE_padding p -> "padding@" ^ string_of_n p | SpecDecoder.SE_zlib p -> "zlib@" ^ string_of_n p
+  | SpecDecoder.SE_restart p -> "restart@" ^ string_of_n p | SpecDecoder.SE_record p -> "record@" ^ string_of_n p
+  | SpecDecoder.SE_key_order p -> "key-order@" ^ string_of_n p | SpecDecoder.SE_section w -> "section-" ^ string_of_n w
+  | SpecDecoder.SE_index l -> "index-level-" ^ string_of_int (int_of_nat l) | SpecDecoder.SE_objindex -> "object-index"
+  | SpecDecoder.SE_update_index -> "update-index" | SpecDecoder.SE_fuel -> "fuel"
+
+(* judge a file against its source records; "ok" or the reason *)
+let spec_judge data (refs : Records.ref_record list) (nlogs : Records.log_record list) mn mx sha =
+  match SpecDecoder.spec_decode spec_inflate data with
+  | Datatypes.Coq_inl e -> "spec:" ^ show_spec_err e
+  | Datatypes.Coq_inr t ->
+    if show_refs t.SpecDecoder.sp_refs <> show_refs refs then "spec:refs-differ"
+    else if show_logs t.SpecDecoder.sp_logs <> show_logs nlogs then "spec:logs-differ"
+    else if string_of_n t.SpecDecoder.sp_min <> string_of_n mn || string_of_n t.SpecDecoder.sp_max <> string_of_n mx then "spec:limits"
+    else if t.SpecDecoder.sp_sha256 <> sha then "spec:hash-id"
+    else "ok"
+
+let () = register "wellformed" (fun args ->
+  let data = bytes_of_hex (L.nth args 0) in
+  let m = match SpecDecoder.spec_decode spec_inflate data with
+    | Datatypes.Coq_inl e -> "rejected:" ^ show_spec_err e
+    | Datatypes.Coq_inr t -> Printf.sprintf "ok" in
+  (m, if m = "ok" then "ok" else "bad:" ^ m))
+
 (* ---- tables: C01 C02 C11 C14 ---- *)
 let show_res f = function
   | Result.Ok a -> f a
@@ -135,7 +166,10 @@ let () = register "table" (fun args ->
              | [], [] -> "ok"
              | q :: qt, r :: rt -> if spec_query refs nlogs q = r then chk qt rt else "bad:query " ^ q
              | _ -> "bad:query-count" in
-           chk qs qres)
+           let v = chk qs qres in
+           if v <> "ok" then v else
+           let j = spec_judge (bytes_of_hex (S.sub w 3 (S.length w - 3))) refs nlogs mn mx cfg.Writer.c_sha256 in
+           if j = "ok" then "ok" else "bad:" ^ j)
     | w :: _ when w = "panic" -> "bad:writer-panic"
     | _ :: o :: _ when o = "panic" -> "bad:open-panic"
     | _ -> "-" in
@@ -310,6 +344,20 @@ let () = register "history" (fun args ->
       | _ -> "bad:observation-format" in
     go [] [] ops obs 0 in
   (model, oracle))
+
+(* ---- hostile bytes: C18 ---- *)
+let () = register "hostile" (fun args ->
+  let f = S.split_on_char '|' (L.nth args 0) in
+  let data = bytes_of_hex (L.nth f 0) in
+  let qs = split_on ',' (L.nth f 1) in
+  let parts = match Reader.rd_open data with
+    | Result.Ok rd -> "ok" :: L.map (model_query rd) qs
+    | r -> [show_res (fun _ -> "ok") r] in
+  let oracle =
+    if L.length args < 2 then "-" else
+    let impl = S.split_on_char '|' (L.nth args 1) in
+    if L.mem "panic" impl then "bad:panic" else if L.mem "hang" impl then "bad:hang" else "ok" in
+  (S.concat "|" parts, oracle))
 
 let () =
   try
